@@ -31,6 +31,8 @@ type ProgOpts struct {
 	SubInLoop bool // allow sub-processes inside loops (known-finding trigger)
 	ForkInOr bool // allow forking blocks inside inclusive branches (known-finding trigger)
 	OrInAnd bool // allow inclusive joins inside parallel branches (known-finding trigger)
+	Wrap    bool // C12: wrap blocks in 1..3 levels of embedded sub-process
+	Flatten bool // C12: consume the same draws but splice the content in place (the inlined twin)
 	ActivityMultiFork bool // allow several true conditional flows leaving an activity (known-finding trigger)
 }
 
@@ -45,6 +47,8 @@ type progGen struct {
 	inLoop int
 	inOr  int
 	inAnd int
+	nwrap int
+	wrapped int
 }
 
 func (pg *progGen) newTask(g *Graph) *Node {
@@ -75,10 +79,67 @@ func (pg *progGen) condHolds(c *Cond) bool {
 	return pg.vars[c.Var] == c.Want
 }
 
+// block generates one block, optionally wrapped in 1..3 levels of embedded sub-process (C12). Wrapper
+// ids come from their own counter so that the wrapped program and its inlined twin (Flatten) name
+// their activities identically.
+func (pg *progGen) block(g *Graph, from string, cond *Cond, outPos int, depth int) (exit string, inFlow string) {
+	levels := 0
+	if pg.opts.Wrap && pg.d.N(3) == 2 {
+		levels = 1 + pg.d.N(3)
+	}
+	if levels == 0 || pg.opts.Flatten {
+		return pg.blockInner(g, from, cond, outPos, depth)
+	}
+	if pg.inLoop > 0 {
+		if !pg.opts.SubInLoop {
+			return pg.blockInner(g, from, cond, outPos, depth)
+		}
+		pg.tags["sub-in-loop"] = true
+	}
+	pg.wrapped += levels
+	d := pg.defs
+	type level struct {
+		g   *Graph // the graph inside the wrapper
+		sub *Node  // the wrapper node (lives in the enclosing graph)
+	}
+	var chain []level
+	cur := g
+	prev := from
+	var firstFlow string
+	for l := 0; l < levels; l++ {
+		pg.nwrap++
+		sg := &Graph{ID: fmt.Sprintf("WG%d", pg.nwrap)}
+		s := cur.addNode(&Node{ID: fmt.Sprintf("W%d", pg.nwrap), Kind: "sub", Sub: sg})
+		if l == 0 {
+			firstFlow = cur.connect(d, prev, s.ID, cond, outPos).ID
+		} else {
+			cur.connect(d, prev, s.ID, nil, -1)
+		}
+		st := sg.addNode(&Node{ID: fmt.Sprintf("WS%d", pg.nwrap), Kind: "start"})
+		chain = append(chain, level{g: sg, sub: s})
+		cur = sg
+		prev = st.ID
+		fmt.Fprintf(&pg.desc, "sub%s( ", s.ID)
+	}
+	last, _ := pg.blockInner(cur, prev, nil, -1, depth)
+	// close the levels from the inside out: content -> end event; nested wrapper -> end event
+	for i := len(chain) - 1; i >= 0; i-- {
+		gg := chain[i].g
+		e := gg.addNode(&Node{ID: "WE" + strings.TrimPrefix(gg.ID, "WG"), Kind: "end"})
+		if i == len(chain)-1 {
+			gg.connect(d, last, e.ID, nil, -1)
+		} else {
+			gg.connect(d, chain[i+1].sub.ID, e.ID, nil, -1)
+		}
+		pg.desc.WriteString(") ")
+	}
+	return chain[0].sub.ID, firstFlow
+}
+
 // block generates one block after node `from`; the connecting flow carries cond (may be nil) and is
 // inserted at outPos of from's outgoing list. It returns the node the next block continues from
 // and the id of the connecting flow.
-func (pg *progGen) block(g *Graph, from string, cond *Cond, outPos int, depth int) (exit string, inFlow string) {
+func (pg *progGen) blockInner(g *Graph, from string, cond *Cond, outPos int, depth int) (exit string, inFlow string) {
 	kinds := []string{"task"}
 	if depth < pg.opts.MaxDepth && pg.tasks < pg.opts.MaxTasks {
 		kinds = append(kinds, pg.opts.Kinds...)
@@ -316,6 +377,7 @@ type Program struct {
 	Desc string         `json:"desc"`
 	Tags []string       `json:"tags,omitempty"`
 	Objs map[string]any `json:"objs,omitempty"`
+	Wrapped int         `json:"wrapped,omitempty"`
 }
 
 // GenProgram draws a block-structured process.
@@ -338,5 +400,5 @@ func GenProgram(d *Draw, opts ProgOpts) *Program {
 		tags = append(tags, t)
 	}
 	sort.Strings(tags)
-	return &Program{Defs: defs, Vars: pg.vars, Desc: strings.TrimSpace(pg.desc.String()), Tags: tags}
+	return &Program{Defs: defs, Vars: pg.vars, Desc: strings.TrimSpace(pg.desc.String()), Tags: tags, Wrapped: pg.wrapped}
 }
